@@ -371,7 +371,7 @@ def _run_variant(args):
         shutil.rmtree(d, ignore_errors=True)
 
 
-TWIN_KINDS = ("unparse", "rename", "logging", "temps", "ifswap", "elseflat", "augassign", "recv")
+TWIN_KINDS = ("unparse", "rename", "logging", "temps", "ifswap", "elseflat", "augassign", "recv", "cmpflip")
 
 
 def _package_files(root: str) -> list[str]:
